@@ -16,9 +16,12 @@ codec is handed.
     demand; an encoder is a *write program*: a list of `WrOp`s.
 
 `Model/Framing.lean` abstracts both away (`Dec.readBody` hands `cd.de` the bytes `buf.take len` and
-continues with `buf.drop len`; `encodeItem` appends `cd.ser m` after the 5 reserved bytes).  The
-theorems `C01_decode_buf_is_the_payload_window` / `C01_encode_buf_appends` (Props/C01.lean) show
-that this is what every read / write program gets.
+continues with `buf.drop len`; `encodeItem` appends `cd.ser m` after the 5 reserved bytes).  This file is
+free-standing (imported by Props/C01.lean only; the `rdec` / `xenc` correspondence cases are predicted as the
+wrapped `dec` / `enc` case).  `C01_decode_buf_is_the_payload_window`, `_no_panic_inside_the_window` and
+`C01_encode_buf_appends` are statements about THIS model alone; the theorems that mention both models —
+that the abstraction of `Model/Framing.lean` is what every read / write program gets — are
+`C01_decode_buf_feeds_readBody`, `_compressed` and `C01_encode_buf_feeds_encodeItem` (Props/C01.lean).
 -/
 namespace Framing
 
